@@ -1,7 +1,7 @@
 From Coq Require Import ZArith NArith List Bool String.
 From Coq Require Import ExtrOcamlBasic.
 From Falcon.lib Require Import Wire PyStr.
-From Falcon.C09 Require Import Model Spec.
+From Falcon.C09 Require Import Model Spec SpecRfc.
 Import ListNotations.
 Open Scope Z_scope.
 
@@ -71,6 +71,18 @@ Definition run (v : val) : val :=
   | L [I 22; hdr; d; kind; h; p] =>
     vbool (host_ok (dstr hdr) (dopt dZ d) (dN kind) (dstr h) (dopt dZ p))
   | L [I 23; name] => vstr (mangle (dstr name))
+  (* RFC-level readings (SpecRfc.v): () = not in the valid language, (x) = the reading *)
+  | L [I 30; hdr] => vopt (vlist v_etag) (rfc_etags (dstr hdr))
+  | L [I 31; hdr] =>
+    vopt (fun pairs => L [vlist (fun p => L [vstr (fst p); v_cval (snd p)]) pairs;
+                          vlist (fun p => L [vstr (fst p); vlist v_cval (snd p)]) (cookie_group pairs)])
+         (rfc_cookie_string (dstr hdr))
+  | L [I 32; hdr] => vopt (vlist v_fwd) (rfc_forwarded (dstr hdr))
+  | L [I 33; asgi; fw; xff; xreal; remote] =>
+    vopt (vlist vstr) (rfc_access_route (dbool asgi) (dopt dstr fw) (dopt dstr xff) (dopt dstr xreal) (dstr remote))
+  | L [I 34; fw; xp; scheme] => vopt vstr (rfc_forwarded_scheme (dopt dstr fw) (dopt dstr xp) (dstr scheme))
+  | L [I 35; fw; xh; netloc] => vopt vstr (rfc_forwarded_host (dopt dstr fw) (dopt dstr xh) (dstr netloc))
+  | L [I 36; node] => vopt vstr (rfc_node (dstr node))
   | _ => L [I (-1)]
   end.
 
